@@ -51,8 +51,12 @@ def generate(seed, tier):
                 m = LC.gen_mine(rng, latest_bias=0.85, max_txs=2)
                 m.update({'op': 'bulk', 'peer': peer, 'clock': 0})
                 ops.append(m)
-            elif y < 0.72:
+            elif y < 0.68:
                 ops.append({'op': 'dup', 'n': rng.randrange(1000), 'peer': peer, 'route': 'bulk'})
+            elif y < 0.74:
+                m = LC.gen_mine(rng, latest_bias=0.85, max_txs=0)
+                m.update({'op': 'requested_late', 'peer': peer, 'clock': 0})
+                ops.append(m)
             elif y < 0.84:
                 ops.append({'op': 'redeliver_dropped', 'n': rng.randrange(1000), 'peer': peer, 'route': rng.choice(['relay', 'bulk'])})
             else:
@@ -207,8 +211,10 @@ def execute(script):
             any_accept = False
             # the node's own processing order decides arrival order for the reference
             rolled_back = False
+            dropped_now = set()
             for bid in new_installs:
                 if isinstance(bid, tuple):
+                    dropped_now |= set(unflushed) & bid[1]
                     # a rejected relay made the node fall back to its last validated state: the blocks installed unvalidated
                     # since then are gone again - by design of the bulk-download path (anything else that went missing with
                     # them is reported by the membership comparison below)
@@ -271,7 +277,10 @@ def execute(script):
                 if conn_lost:
                     res.bump('probe:delivery_lost_with_its_connection')
                 if not early and cand['parent_settled'] and cand['expect'] not in ('forgery', 'context') and not conn_lost \
-                        and blk.header.summary.previous_block_hash in accepted:
+                        and blk.header.summary.previous_block_hash in accepted \
+                        and blk.header.summary.previous_block_hash not in dropped_now:
+                    # (a parent that a fall-back dropped during this batch may have been away when the block arrived, even if a
+                    # repeat brought it back afterwards)
                     res.violate(PROP, 'C09/valid-block-not-accepted',
                                 'a valid block on a known parent, delivered outside bulk download, is not in chain state (%s)' % cand['label'])
                     return False
@@ -467,6 +476,49 @@ def execute(script):
                 res.bump('probe:dropped_block_delivered_again')
                 if not settle_and_check():
                     break
+            elif kind == 'requested_late':
+                # a slow peer announces a block and is asked for it; before it answers, another peer relays the block and its
+                # child; then the slow peer's answer arrives (a requested block the node has meanwhile stored, with a stored child)
+                if not settle_and_check():
+                    break
+                rb = sim.parent_of(op.get('tip', -1))
+                ts = rb.ts + max(1, op.get('dt', 60))
+                if ts > w.node_clock() + 15:
+                    continue
+                b1 = W.roundtrip(W.mine_honest(W.view_at(sim.cs, rb.id), [], W.key(op.get('miner', 0) % 12), ts))
+                if rules.block_id(b1) in accepted:
+                    continue
+                tmp_cs = sim.cs.add_block_no_validation(b1)
+                b2 = W.roundtrip(W.mine_honest(tmp_cs if tmp_cs.current_chain_hash == rules.block_id(b1) else W.view_at(tmp_cs, rules.block_id(b1)),
+                                               [], W.key(3), ts + 1))
+                slow = w.conn(op.get('peer', 0))
+                fast = w.conn(op.get('peer', 0) + 1)
+                if slow is None or fast is None or slow.bot is fast.bot:
+                    continue
+                slow.bot.b['hold_getdata'] = True
+                try:
+                    slow.offer_block(b1)
+                    w.settle(2500)
+                    asked = len(slow.held)
+                    send_block(b1, op.get('peer', 0) + 1, 'relayed-while-requested-elsewhere', 'honest')
+                    if not settle_and_check():
+                        break
+                    send_block(b2, op.get('peer', 0) + 1, 'child-of-it', 'honest')
+                    if not settle_and_check():
+                        break
+                finally:
+                    slow.bot.b['hold_getdata'] = False
+                if asked and not slow.closed:
+                    if not batch:
+                        mark['inst0'] = len(installs)
+                    batch.append({'block': b1, 'bid': rules.block_id(b1), 'label': 'late-answer-to-own-request', 'expect': 'context',
+                                  't_send': w.node_clock(), 'route': 'bulk', 'known_at_send': True, 'conn': slow, 'parent_settled': True,
+                                  'counts_before': {k_: v_[0] for k_, v_ in w.count_block_messages(rules.block_id(b1)).items()},
+                                  'greeted_before': [id(x) for x in w.greeted_bot_conns()]})
+                    slow.release_held()
+                    res.bump('probe:requested_block_arrives_after_it_was_stored_with_a_child')
+                    if not settle_and_check():
+                        break
             elif kind == 'dup':
                 if not delivered_valid:
                     continue
